@@ -22,6 +22,7 @@ BCLS = ["AnyParamKindBinding", "PosArgsKwargsBinding", "PosKwdKwargsBinding", "P
         "KwdArgsBinding", "KwdKwargsBinding", "KwdBinding", "ArgsKwargsBinding", "KwargsBinding",
         "ArgsBinding", "PosOrKwdBinding"]
 ANN = ["int", "str", "float", "decimal.Decimal", "fractions.Fraction"]
+COQ_TARGETS = ["theories/Proofs/BindingLemmas.vo", "theories/Model/BindingEq.vo"]
 
 
 # ----------------------------------------------------------------------------------
